@@ -20,7 +20,7 @@ EXPLANATION = (
     'coverage.  It decides that the mechanisms are on every path; it does not '
     'execute histories.')
 FLOORS = {'C01.a': 10, 'C01.b': 4, 'C01.c': 2, 'C01.d': 3, 'C01.e': 1,
-          'C01.f': 7, 'C01.m2': 5}
+          'C01.f': 7, 'C01.m2': 5, 'C01.g': 1}
 
 FILES = c08.FILES
 
@@ -347,6 +347,64 @@ def _iterates_all_items(m, it):
   return False
 
 
+def rule_g(ctx):
+  """A child is addressed by its real position: once the List primitive has
+  read the item it is going to replace at position X, a negative X is
+  rewritten to the real position on every path (the insert / delete branches
+  are covered by the unconditional re-index of C01.c)."""
+  idx = ctx.index
+  f = idx.lookup_method(S.LIST, S.PRIMITIVE)
+  g = C.cfg_of(f.node)
+  problems = []
+  reads = []
+  for k in g.nodes:
+    if k.ast is None:
+      continue
+    for c in k.calls():
+      if A.call_name(c) == 'list.__getitem__' and len(c.args) == 2 and isinstance(c.args[1], ast.Name):
+        reads.append((k, c.args[1].id))
+  sets = [c for k in g.nodes if k.ast is not None for c in k.calls()
+          if c08._raw_of_call(idx, f, c) == 'list.__setitem__']
+  if not reads or not sets:
+    raise AnalysisError('List primitive no longer reads/stores the replaced item with list.__getitem__/__setitem__')
+  for k, var in reads:
+    tests = [n for n in g.nodes if n.kind == 'test' and A.unparse(n.ast) == f'{var} < 0']
+    if not tests:
+      problems.append(f'a negative `{var}` is never rewritten to the real position when an item is replaced: '
+                      f'the new child reports the path [{var}] (e.g. [-1])')
+      continue
+    w = g.can_skip(k, lambda n: n in tests)
+    if w:
+      problems.append(f'after the replaced item is read, a path leaves without testing `{var} < 0`: {w}')
+    ok_norm = False
+    for t in tests:
+      for m, lab in t.succ:
+        if lab == 'true' and m.ast is not None:
+          d = D.node_defs(m).get(var)
+          if d is not None and A.unparse(d) in (f'{var} + len(self)', f'len(self) + {var}'):
+            ok_norm = True
+    if not ok_norm:
+      problems.append(f'`{var} < 0` does not rewrite {var} to {var} + len(self)')
+    for c in sets:
+      if not (isinstance(c.args[1], ast.Name) and c.args[1].id == var):
+        problems.append('the item is stored at another expression than the position it was read from')
+    # the path key of the new child is that same variable, taken after the read
+    for n in g.nodes:
+      if n.ast is None:
+        continue
+      for c in n.calls():
+        if A.call_name(c) == 'self._formalized_value':
+          if not (c.args and isinstance(c.args[0], ast.Name) and c.args[0].id == var):
+            problems.append('the child path is derived from another expression than the stored position')
+          else:
+            seen, _ = g.reach(n, follow_exc=False)
+            if k.id in seen:
+              problems.append('the child path is derived before the replaced item is read / the index normalised')
+  ctx.ob('C01.g', f.fq + '#position', not problems,
+         'a replaced item is addressed by its real (non-negative) position, independent of change notification',
+         f.loc, '; '.join(problems))
+
+
 def rule_f(ctx):
   idx = ctx.index
   for cls_fq in (S.LIST, S.DICT):
@@ -552,5 +610,6 @@ def run(ctx):
   rule_d(ctx, raws)
   rule_e(ctx)
   rule_f(ctx)
+  rule_g(ctx)
   ctx.note(f'{len(raws)} raw storage writes in {len({r.func.fq for r in raws})} functions')
   ctx.assume('aliasing through user subclasses outside the repository is out of scope')
